@@ -166,7 +166,7 @@ def side_conditions(s):
 
 
 EXTRA_PROPERTY_FILES = ['theories/Properties/Composition.v']
-EXTRA_THEOREMS = {'theories/Properties/Composition.v': ['Compose_C04_translations_agree', 'Compose_C04_lookup_sound_on', 'Compose_C04_manifest_key_is_C02_pp_key', 'Compose_C04_hreq_view_faithful', 'Compose_C04_pp_key_injective_at', 'Compose_C04_mode_equivalence_closed', 'Compose_C09_consistent_from_C02', 'Compose_C09_faults_transparent_closed', 'Compose_C09_internal_fault_reported_closed', 'Compose_C09_history_transparent_closed', 'Compose_C09_repopulates_closed', 'Compose_C03_allowlist_is_C02', 'Compose_C03_key_of_is_C02_key', 'Compose_C03_hit_after_store_C02_key', 'Compose_store_invariants', 'Compose_C20_late_client_gets_result', 'Compose_C20_not_serving_client_gets_result', 'Compose_C09_put_fault_classes', 'Compose_C09_repopulates_after_any_store_history', 'Compose_C09_store_fault_transparent_and_recovers', 'Compose_C10_hit_installs_compiled_bytes', 'Compose_C01_hit_end_to_end']}
+EXTRA_THEOREMS = {'theories/Properties/Composition.v': ['Compose_C04_translations_agree', 'Compose_C04_lookup_sound_on', 'Compose_C04_manifest_key_is_C02_pp_key', 'Compose_C04_hreq_view_faithful', 'Compose_C04_pp_key_injective_at', 'Compose_C04_mode_equivalence_closed', 'Compose_C09_consistent_from_C02', 'Compose_C09_faults_transparent_closed', 'Compose_C09_internal_fault_reported_closed', 'Compose_C09_history_transparent_closed', 'Compose_C09_repopulates_closed', 'Compose_C03_allowlist_is_C02', 'Compose_C03_key_of_is_C02_key', 'Compose_C03_hit_after_store_C02_key', 'Compose_store_invariants', 'Compose_C20_late_client_gets_result', 'Compose_C20_not_serving_client_gets_result', 'Compose_C09_put_fault_classes', 'Compose_C09_repopulates_after_any_store_history', 'Compose_C09_store_fault_transparent_and_recovers', 'Compose_C10_hit_installs_compiled_bytes', 'Compose_C01_hit_end_to_end', 'Compose_C15_ro_open_serves_rw_history', 'Compose_C15_ro_open_serves_concurrent_store_partial']}
 
 
 def translate(rep):
